@@ -670,6 +670,9 @@ def subscript(interp, base: V, idx: V, node) -> Optional[V]:
     if isinstance(base, DictV):
         if isinstance(idx, Const) and idx.v in base.d and not base.stores:
             return base.d[idx.v]
+        if isinstance(idx, Const) and not base.stores and getattr(base, "complete", False) and idx.v not in base.d:
+            interp.raises.append(("KeyError", interp.guards(), f"{interp.where()}: key {idx.v!r} is not in the table"))
+            return Top("missing dictionary key")
         return Term("dictitem", [Const(id(base)), idx], {"dict": base})
     if isinstance(base, Num):
         # indexing a scalar symbol: treat the symbol as array-valued (elementwise semantics)
